@@ -13,7 +13,7 @@ ASSUMPTIONS = ["the receiver is positioned at the attacked message by honest in-
                "accidental AEAD forgeries (2^-128) are ignored"]
 
 
-def variants(rnd, ptlen, aadlen, exhaustive, others):
+def variants(rnd, ptlen, aadlen, exhaustive, others, frame_fields=()):
     """Yields (kind, ct_t, tag_t, aad_t, full_t) transform suffixes; '' = unchanged"""
     nbits_ct = 8 * ptlen
     bits = range(nbits_ct) if exhaustive else sorted(set(rnd.randrange(nbits_ct) for _ in range(min(nbits_ct, 24))))
@@ -50,6 +50,16 @@ def variants(rnd, ptlen, aadlen, exhaustive, others):
         yield ("trunc_aad", "", "", "^trunc:%d" % (aadlen - 1), "")
         yield ("empty_aad", "", "", "^trunc:0", "")
     yield ("skip_first", "^skip:1" if ptlen else None, "", "", "^skip:1")
+    # the same bytes in another framing: tag first, halves swapped, reversed; other protocol fields glued on
+    if ptlen:
+        yield ("tag_first", None, "", "", "^rotr:16")
+    yield ("rotated", None, "", "", "^rotl:%d" % (1 + rnd.randrange(max(1, ptlen + 15))))
+    if ptlen > 1:
+        yield ("reversed", "^rev", "", "", "^rev")
+    for field in frame_fields:
+        yield ("prefixed_with_" + field.split(".")[-1], "^prereg:" + field, "", "", "^prereg:" + field)
+        yield ("suffixed_with_" + field.split(".")[-1], "^catreg:" + field, "", "", "^catreg:" + field)
+        yield ("tag_then_" + field.split(".")[-1], "", "^catreg:" + field, "", None)
     for o, same_aad, same_ct in others:
         yield ("subst_tag", "", "=$%s.tag" % o, "", None)
         if not same_aad:
@@ -120,7 +130,7 @@ def build(env, nsess, exhaustive_upto, ss_share):
         for j, name in enumerate(names):
             others = [(o, aads[o] == aads[name], lens[o] == 0 and lens[name] == 0) for o in names if o != name][:2]
             ex = lens[name] <= exhaustive_upto
-            for v in variants(rnd, lens[name], lens[name + "a"], ex, others):
+            for v in variants(rnd, lens[name], lens[name + "a"], ex, others, frame_fields=("S.enc", "kR.pk", name + ".tag")):
                 for iface in ("open_alloc", "open_inplace"):
                     if not ex and rnd.random() < 0.5:
                         continue
@@ -140,7 +150,8 @@ def build(env, nsess, exhaustive_upto, ss_share):
             s.call("ss_open", api="alloc", ct="$ss.full", aad=aads["ss"], of="ss", variant="control", **ssargs)
             vs = list(variants(rnd, pl, al, pl <= 1, [("m0", aads["m0"] == aads["ss"], pl == 0 and lens["m0"] == 0)]))
             rnd.shuffle(vs)
-            for v in vs[: (60 if kem == 0x0020 else 12)]:
+            framing = list(variants(rnd, pl, al, False, [], frame_fields=("ss.enc", "kR.pk", "ss.tag")))[-12:]
+            for v in vs[: (60 if kem == 0x0020 else 12)] + framing:
                 for iface in ("ss_alloc", "ss_inplace"):
                     emit(s, rnd, iface, "ss", aads, *v, ssargs=ssargs)
             # wrong info is a modification of the context, not of the message: covered by C07
@@ -199,6 +210,10 @@ def monitor(sess, extra):
             continue
         if control_failed:
             break
+        if op.ret.get("ovf") == "1" and op.err() == "MessageLimitReached":
+            # the receiver has opened its 2^64-th message: refusing everything is what C05 demands of it
+            r.counts["deliveries_to_exhausted_receiver"] += 1
+            continue
         r.counts["evaluations"] += 1
         if op.ok():
             r.violation("C06:accepted:%s:%s" % (iface, kind),
